@@ -1,12 +1,142 @@
 /-
   UnytModel.Ops.C07 — opcodes of the C07 model (prefix `c07.`).
+    c07.dump.counts                               → sizes of the regenerated tables
+    c07.predict <func> <variant> <outMode> <operands> <flags> <ok|raise> <nleaves> <leaf sizes> <shapes> <scales>
+                                                  → the unit label `UR.Leaf.exponents/scale` gives every result
+                                                    leaf of that call form for the concrete shapes and unit scales
+                                                    (operands `p:g,…`; flags `n=v,…`; leaf sizes `n,n,…`;
+                                                    shapes `p=2x3;q=4`; scales `g=<float bits>;…`)
+    c07.defects <func>                            → defects of every regenerated row of the function
+    c07.exclusions                                → the literal exclusion list
+    c07.ref.lists                                 → the hand-written lists (dimension-preserving, unitless-result)
+    c07.expected <func> <operands> <flags>        → the reference expectation for a call form
+    c07.attach <func> <variant> <sig> …           → C06's `Np.run` with the unit rule filled in (label of leaf 0)
 -/
 import UnytModel.DriverBase
+import UnytModel.UnitRules
+import UnytModel.UnitRulesCheck
+import UnytModel.Generated.UnitRules
+import UnytModel.Generated.Handlers
+import UnytModel.Ref.C07Degrees
+import UnytModel.Ref.C07Exclusions
 
 namespace Unyt
+open Unyt.UR
 
-def opsC07 : Handler := fun _st fields =>
+def c07Pairs (s : String) (sep : String) : List (String × String) :=
+  if s == "" then [] else
+  (s.splitOn ",").filterMap fun item =>
+    match item.splitOn sep with
+    | [a, b] => some (a, b)
+    | a :: rest => some (a, sep.intercalate rest)
+    | _ => none
+
+def c07Operands (s : String) : List (String × String) :=
+  if s == "" then [] else
+  (s.splitOn ",").filterMap fun item =>
+    -- the group is what follows the LAST colon
+    match (item.splitOn ":").reverse with
+    | g :: rest@(_ :: _) => some (":".intercalate rest.reverse, g)
+    | _ => none
+
+def c07Shape (s : String) : Option Shape :=
+  if s == "" then some [] else (s.splitOn "x").mapM (·.toNat?)
+
+def c07Shapes (s : String) : List (String × Shape) :=
+  if s == "" then [] else
+  (s.splitOn ";").filterMap fun item =>
+    match (item.splitOn "=").reverse with
+    | sh :: rest@(_ :: _) => (c07Shape sh).map fun x => ("=".intercalate rest.reverse, x)
+    | _ => none
+
+def c07Scales (s : String) : List (String × Float) :=
+  if s == "" then [] else
+  (s.splitOn ";").filterMap fun item =>
+    match item.splitOn "=" with
+    | [g, b] => (fb b).map fun x => (g, x)
+    | _ => none
+
+def c07Env (shapes : List (String × Shape)) (ops : List (String × String)) (resultSize : Nat) : Env :=
+  { shape := fun p => (shapes.find? (·.1 == p)).map (·.2)
+    resultSize := resultSize
+    reduced := fun _ => none
+    nops := fun p => (ops.filter fun (n, _) => Ref.paramBase n == p).length }
+
+def c07FlagsStr (fl : List (String × String)) : String := ",".intercalate (fl.map fun (n, v) => n ++ "=" ++ v)
+def c07OpsStr (ops : List (String × String)) : String := ",".intercalate (ops.map fun (n, g) => n ++ ":" ++ g)
+
+def c07LabelOut (u : String → Float) (env : Env) (lab : List (String × Expo)) : String :=
+  match (lab.mapM fun (g, e) => (e.eval env).map fun q => (g, q)) with
+  | some l =>
+    let l' := l.filter (·.2 != 0)
+    ";".intercalate (l'.map fun (g, q) => g ++ ":" ++ ratStr q) ++ "|" ++ bitsStr (labelScale u l')
+  | none => "?"
+
+def opsC07 : Handler := fun st fields =>
   match fields with
+  | ["c07.dump.counts"] =>
+    some (st, s!"ok\t{Generated.ruleRows.length}\t{Generated.staticExpos.length}\t{(Generated.ruleRows.map (·.func)).eraseDups.length}")
+  | ["c07.predict", f, v, om, opsS, flagsS, outcome, nleaves, sizesS, shapesS, scalesS] =>
+    let raised := outcome != "ok"
+    let n := nleaves.toNat?.getD 0
+    let cands := Generated.ruleRows.filter fun r =>
+        r.func == f && r.variant == v && r.outMode == om && c07OpsStr r.operands == opsS && c07FlagsStr r.flags == flagsS
+    if cands.isEmpty then some (st, "norow") else
+    match cands.find? fun r => r.raised == raised && (raised || r.leaves.length == n || (r.tailRepeats && n ≥ 2)) with
+    | none => some (st, "other-outcome")
+    | some row =>
+      if row.raised then some (st, "ok\traised") else
+      let shapes := c07Shapes shapesS
+      let scales := c07Scales scalesS
+      let u : String → Float := fun g => ((scales.find? (·.1 == g)).map (·.2)).getD 1.0
+      let sizes := if sizesS == "" then [] else (sizesS.splitOn ",").map fun s => s.toNat?.getD 0
+      let lvs := if row.tailRepeats then
+          (match row.leaves with
+           | [h, r] => h :: List.replicate (n - 1) r
+           | l => l)
+        else row.leaves
+      let outs := (lvs.zip sizes).map fun (leaf, sz) =>
+        let env := c07Env shapes (c07Operands opsS) sz
+        s!"{if leaf.carries then 1 else 0}|{c07LabelOut u env leaf.expo}"
+      let ol := match row.outLabel with
+        | some lab => c07LabelOut u (c07Env shapes (c07Operands opsS) (sizes.headD 1)) lab
+        | none => "-"
+      some (st, s!"ok\tvalue\t{" ".intercalate outs}\t{ol}")
+  | ["c07.defects", f] =>
+    let ds := (Generated.ruleRows.filter (·.func == f)).flatMap fun r =>
+      (rowDefects r).map fun d => r.variant ++ "|" ++ r.outMode ++ "|" ++ d
+    some (st, "ok\t" ++ ";".intercalate ds)
+  | ["c07.exclusions"] =>
+    some (st, "ok\t" ++ ";".intercalate (Ref.exclC07.map fun (f, d) => f ++ "|" ++ d)
+      ++ "\t" ++ ";".intercalate Ref.exclC07DimPreserving)
+  | ["c07.ref.lists"] =>
+    some (st, "ok\t" ++ ";".intercalate Ref.dimensionPreserving ++ "\t" ++ ";".intercalate Ref.unitlessResult
+      ++ "\t" ++ ";".intercalate (Ref.dimensionPreserving.filterMap fun f => (Ref.dimOperand f).map fun p => f ++ "=" ++ p))
+  | ["c07.expected", f, opsS, flagsS] =>
+    let c : Ref.CallForm := ⟨f, c07Pairs flagsS "=", (c07Operands opsS).filter fun (_, g) => g != "d" && g != "out"⟩
+    let specStr : Ref.LeafSpec → String := fun s => match s with
+      | .unitless => "unitless"
+      | .units l => "units(" ++ ",".intercalate (l.map fun (r, e) => r ++ "^" ++ e.str) ++ ")"
+    let out := match Ref.expected c with
+      | .missing => "missing"
+      | .mustRefuse => "mustRefuse"
+      | .allUnitless => "allUnitless"
+      | .leaves l => "leaves:" ++ " ".intercalate (l.map specStr)
+      | .headRest h r => "headRest:" ++ specStr h ++ " " ++ specStr r
+    some (st, "ok\t" ++ out)
+  -- C06's interpreter with C07's unit rule as its `unitRule` parameter
+  | ["c07.attach", f, v, om, shapesS, sizeS] =>
+    match Generated.ruleRows.filter (fun r => r.func == f && r.variant == v && r.outMode == om && !r.raised),
+          Generated.traceRows.find? (fun r => r.func == f && r.variant == v && !r.raised && !r.calls.isEmpty) with
+    | [rule], some fwd =>
+      let env := c07Env (c07Shapes shapesS) rule.operands (sizeS.toNat?.getD 1)
+      let args : Np.Args String := fwd.params.map fun (p, _) => (p, Np.PyVal.qty p "u")
+      match runWithRule (fun g a => Np.renderCall g a) (fun p => Np.PyVal.qty ("?" ++ p) "u") (fun r => r) fwd rule env args with
+      | .value u r => some (st, s!"ok\t{u}\t{r}")
+      | .raised e => some (st, s!"ok\traised\t{e}")
+      | .noKernel => some (st, "ok\tnokernel")
+    | _ :: _ :: _, _ => some (st, "ambiguous")
+    | _, _ => some (st, "norow")
   | _ => none
 
 end Unyt
